@@ -23,6 +23,7 @@ mod spatial;
 mod geom;
 mod matprog;
 mod numlift;
+mod pixel;
 
 /// an angle value as a list of tokens (shared by the drivers)
 pub fn xform_token(a: q::Q) -> serde_json::Value { xform::token_of(a) }
@@ -34,6 +35,7 @@ fn main() {
     match (args[1].as_str(), args[2].as_str()) {
         ("replay", "ops") => ops::replay(rest),
         ("replay", "iter") => iter::replay(rest),
+        ("replay", "iterpair") => iter::replay_pair(rest),
         ("drive", "ops") => ops::drive(rest),
         ("drive", "own") => own::drive(rest),
         ("drive", "products") => mat::drive_products(rest),
